@@ -70,6 +70,9 @@ type CProgram struct {
 	ParamTerms  []string
 	Provs       map[string]int // provider symbol -> arity
 	Flds        map[string]bool
+	// LimitSet/Limit: errgroup.SetLimit(n) was called before any eg.Go (n >= 0).
+	LimitSet bool
+	Limit    int
 }
 
 type ctxObj struct{ name string }
@@ -558,8 +561,27 @@ func (x *Extractor) install() {
 			x.spawnIdx[cfn] = id
 			x.spawnFns[id] = args[1]
 		}
-		x.rec(ps, CEvent{Kind: "spawn", Spawned: id})
+		x.rec(ps, CEvent{Kind: "spawn", Spawned: id, Site: "main:errgroup-go", Line: x.lineOf(ps.interp.callpos)})
 		return nil
+	}
+	e.Intercepts["(*"+eg+".Group).SetLimit"] = func(ps *PathState, fr *frame, fn *ssa.Function, args []value) value {
+		n, ok := args[1].(int)
+		if !ok {
+			panic(unsupported{fmt.Sprintf("eg.SetLimit of %T", args[1])})
+		}
+		if x.cur.thread != 0 || x.spawnedOnPath() {
+			panic(unsupported{"eg.SetLimit after a goroutine was started"})
+		}
+		if n >= 0 {
+			x.prog.LimitSet, x.prog.Limit = true, n
+		}
+		return nil
+	}
+	for _, m := range []string{"TryGo"} {
+		m := m
+		e.Intercepts["(*"+eg+".Group)."+m] = func(ps *PathState, fr *frame, fn *ssa.Function, args []value) value {
+			panic(unsupported{"errgroup.Group." + m + " is not modelled"})
+		}
 	}
 	e.Intercepts["(*"+eg+".Group).Wait"] = func(ps *PathState, fr *frame, fn *ssa.Function, args []value) value {
 		ev := x.rec(ps, CEvent{Kind: "wait", Decision: true, Site: x.siteOf(), Line: x.lineOf(ps.interp.callpos)})
